@@ -35,5 +35,6 @@ int main(int argc, char **argv) {
     RUN("storage_mt", 2, true, scn::storage_mt<true>(o, R, T, o.cases));
     RUN("async_start_race", 2, true, scn::async_start_race(o, R, T, o.cases));
     RUN("queue_unblock_contended", std::min(o.threads, 4), true, scn::queue_unblock_contended(o, R, T, o.cases));
+    RUN("publisher_two_publishers", o.threads, true, scn::publisher_two_publishers(o, R, T, o.cases));
     return 0;
 }
